@@ -57,6 +57,11 @@ type hist struct {
 	log     []string
 	faulty  bool // faults enabled for this history
 	synced  int
+	// an open transaction: every call goes through it; txSnap is the model at BEGIN
+	tx      *sql.Tx
+	txSnap  [][]reflect.Value
+	txErr   bool // a statement failed inside the transaction: PostgreSQL has aborted it
+	txCalls int
 }
 
 type violation struct{ clause, detail string }
@@ -121,6 +126,12 @@ func (h *hist) call(name string, f reflect.Value, args ...reflect.Value) ([]refl
 		}
 		if outs[n-1].Type().Implements(reflect.TypeOf((*error)(nil)).Elem()) {
 			outs = outs[:n-1]
+		}
+	}
+	if h.tx != nil {
+		h.txCalls++
+		if err != nil && err != sql.ErrNoRows {
+			h.txErr = true
 		}
 	}
 	return outs, err
@@ -270,7 +281,82 @@ func (h *hist) newRow(t *tinfo, g *gen, keepID int64, skip int, depth int) (refl
 
 // ---- the operations -------------------------------------------------------
 
-func (h *hist) db() reflect.Value { return reflect.ValueOf(h.sdb) }
+func (h *hist) db() reflect.Value {
+	if h.tx != nil {
+		return reflect.ValueOf(h.tx)
+	}
+	return reflect.ValueOf(h.sdb)
+}
+
+// begin opens a transaction through which every following call is made.
+func (h *hist) begin() {
+	if h.tx != nil {
+		return
+	}
+	tx, err := h.sdb.Begin()
+	if err != nil {
+		if h.faulted() {
+			return
+		}
+		kernel.Harnessf("begin: %v", err)
+	}
+	h.tx, h.txErr, h.txCalls = tx, false, 0
+	h.txSnap = make([][]reflect.Value, len(h.tables))
+	for i, t := range h.tables {
+		for _, r := range t.rows {
+			h.txSnap[i] = append(h.txSnap[i], own(t, r))
+		}
+	}
+	h.note("BEGIN")
+}
+
+// end closes the open transaction; after a rollback the model is the one of BEGIN.
+func (h *hist) end(commit bool) {
+	if h.tx == nil {
+		return
+	}
+	tx := h.tx
+	h.tx = nil
+	restore := func() {
+		for i, t := range h.tables {
+			t.rows = h.txSnap[i]
+		}
+		h.txSnap = nil
+	}
+	if h.txErr {
+		// a statement was refused inside the transaction (as the model predicted):
+		// the transaction is lost whatever is asked now
+		commit = false
+	}
+	if commit {
+		err := tx.Commit()
+		h.note("COMMIT -> %v", err)
+		if h.faulted() {
+			return
+		}
+		if err != nil {
+			h.judgeErr("commit", err)
+			return
+		}
+		h.txSnap = nil
+		h.out.Probe("tx_committed")
+		h.out.ProbeN("calls_inside_tx", int64(h.txCalls))
+		h.out.Keys = append(h.out.Keys, fmt.Sprintf("@call:tx-commit/%d", min(h.txCalls, 6)))
+		return
+	}
+	err := tx.Rollback()
+	h.note("ROLLBACK -> %v", err)
+	if h.faulted() {
+		return
+	}
+	restore()
+	h.out.Probe("tx_rolled_back")
+	if h.txErr {
+		h.out.Probe("tx_aborted_by_predicted_refusal")
+	}
+	h.out.ProbeN("calls_inside_tx", int64(h.txCalls))
+	h.out.Keys = append(h.out.Keys, fmt.Sprintf("@call:tx-rollback/%d/%v", min(h.txCalls, 6), h.txErr))
+}
 
 func (h *hist) judgeErr(what string, err error) bool {
 	if err == nil {
@@ -311,6 +397,12 @@ func (h *hist) note(format string, a ...any) {
 func (h *hist) faulted() bool {
 	if h.srv.FaultedSinceReset() {
 		h.srv.ResetFaultFlag()
+		if h.tx != nil {
+			// the state of the transaction is unknown: give it up
+			h.tx.Rollback()
+			h.tx, h.txSnap = nil, nil
+			h.srv.ResetFaultFlag()
+		}
 		h.resync()
 		return true
 	}
